@@ -1,7 +1,7 @@
 """C02 — Reed-Solomon codecs are MDS: any k of the n symbols recover the block (BOUNDED in (k,n))."""
 import itertools
 from ofvlib.core import Job
-from checks import c10
+from checks import c10, c13
 
 M = "src/lib_common/of_mem.c"
 GFC = "src/lib_stable/reed-solomon_gf_2_m/galois_field_codes_utils/"
@@ -16,7 +16,7 @@ INFO = {
                    "k => never complete and finish returns FAILURE, core called within its precondition (C10 groups, re-run here); (3) canonical generator "
                    "(C06) and distinct evaluation points (C14) carried by their own checks",
     "assumptions": ["BOUNDED: (k,n) up to (3,6) for GF(2^4) and the legacy codec, (2,4)/(3,5) for GF(2^8) in the quick tier; 'any k rows of G are invertible' for larger (k,n) is the Vandermonde theorem on pairwise distinct points (distinctness proved in C14) and is TRUSTED, not machine-checked",
-                    "multiply-accumulate kernels replaced by their C13 contracts at the call sites inside the cores"],
+                    "multiply-accumulate kernels replaced by their C13 contracts at the call sites inside the cores; those contracts are discharged against the real kernels in this check too (gf_addmul_* groups: one loop-free run per symbol size, sizes listed in the group's bound - BOUNDED in the size)"],
     "trusted": ["Vandermonde theorem for (k,n) beyond the enumerated pairs"],
 }
 
@@ -43,5 +43,14 @@ def decode_jobs(tier, group="rs_decode_core"):
     return js
 
 
+def kernel_jobs(tier, seed, sizes=None):
+    """the C13 contracts of the four GF multiply-accumulate kernels (the contracts that replace the kernels at the call sites inside the decode cores),
+    re-run here so that the chain generator -> encoder -> decoder -> kernel is closed inside this property's own check"""
+    if sizes is None:
+        sizes = (0, 1, 2, 3, 7, 8, 15, 16, 17, 18, 24, 31, 32, 33, 40, 47, 48, 49, 63, 64) if tier == "quick" else tuple(range(0, 161))
+    want = set("size%d" % s for s in sizes)
+    return [j for j in c13.jobs(tier, seed) if j.name.startswith("gf.") and j.name.rsplit(".", 1)[1] in want]
+
+
 def jobs(tier, seed):
-    return decode_jobs(tier) + c10.api_jobs(tier, fns=(1, 3), group_prefix="rs_api_plumbing")
+    return decode_jobs(tier) + c10.api_jobs(tier, fns=(1, 3), group_prefix="rs_api_plumbing") + kernel_jobs(tier, seed)
